@@ -83,6 +83,10 @@ def _false(*a, **kw):
     return False
 
 
+def _frozen_time():
+    return 1000.0
+
+
 def _install_logging_stubs():
     for name in ("debug", "info", "warning", "warn", "error", "exception", "critical", "log"):
         fn = getattr(logging.Logger, name)
@@ -91,6 +95,8 @@ def _install_logging_stubs():
     INSTALLED["stubs"].append("logging.Logger.{debug,info,warning,error,exception,critical,log} -> no-op; isEnabledFor -> False")
     _override(time.sleep, _noop)
     INSTALLED["stubs"].append("time.sleep -> no-op")
+    _override(time.time, _frozen_time)
+    INSTALLED["stubs"].append("time.time -> frozen clock 1000.0 (only feeds log text and the RTU inter-frame bookkeeping; harnesses that reason about deadlines install their own clock)")
     import pymodbus.utilities as U
     def _hexlify_packets(packet):
         return ""
